@@ -187,7 +187,25 @@ func (c *c11Case) Oracle() (bool, string) {
 	return true, ""
 }
 
-func (c *c11Case) Sx() string { return "" }
+func (c *c11Case) Sx() string {
+	if c.Fatal != "" {
+		return ""
+	}
+	var ins []string
+	for _, in := range c.Inputs {
+		var xs []string
+		for _, it := range in {
+			if it.Err {
+				xs = append(xs, "(n1)")
+			} else {
+				xs = append(xs, sxL("n0", sxB(it.K), sxOBn(it.V, it.Nil)))
+			}
+		}
+		ins = append(ins, sxList(xs))
+	}
+	mode := map[string]int{"merge": 0, "compact": 1, "compact_st": 2}[c.Mode]
+	return sxL(sxI(mode), sxList(ins), sxI(c.FailAt), sxBool(c.Err != ""), sxTblKVs(c.Writes), sxI(c.Calls))
+}
 func (c *c11Case) Nontrivial() bool {
 	n := 0
 	for _, in := range c.Inputs {
